@@ -102,11 +102,7 @@ func peerMain() {
 					case "truncated":
 						out <- outItem{b: []byte(expand(f.Txt, f.Pad))}
 					default:
-						sep := "\n"
-						if f.NoNL {
-							sep = " "
-						}
-						out <- outItem{b: []byte(expand(f.Txt, f.Pad) + sep)}
+						out <- outItem{b: []byte(expand(f.Txt, f.Pad) + "\n")}
 					}
 				}
 				if sc.Exit {
